@@ -6,7 +6,7 @@ profile = "safety":     NO precondition on any field value (C12); only Verus' im
                         (overflow, bounds, callee preconditions, termination).
 """
 from vf.unit import Unit
-from .common import HEADER, FOOTER, contract, extract_struct, widen
+from .common import HEADER, FOOTER, STR_ORD, contract, extract_struct, widen
 
 FUNC_PROPS = ["C01", "C02"]
 
@@ -147,5 +147,117 @@ use super::*;
         /*@L:frame_unchanged:C12*/ *final(frame) == *old(frame),""")
     u.emit(g)
 
+    # =================== impl ProguardCache (lookup side) ===================
+    IMPL = r"impl<'data> ProguardCache<'data>"
+    u.raw("impl<'data> ProguardCache<'data> {\n", "glue")
+
+    # ---------------- get_class_members / get_class_members_by_params ----------------
+    for fname, sect, off, ln in (("get_class_members", "members", "members_offset", "members_len"),
+                                  ("get_class_members_by_params", "members_by_params", "members_by_params_offset", "members_by_params_len")):
+        h = cm.impl_fn(IMPL, fname)
+        h.ret("ret")
+        h.props_safety = ["C12"]
+        h.props_all = ["C01", "C02", "C03", "C10"] if fun else ["C12"]
+        if fun:
+            h.contract("""    ensures
+        /*@L:class_range:C01,C02,C03,C10*/ ({ let a = class.%s as int; let b = a + class.%s as int;
+          if b <= self.%s@.len() { ret is Some && ret->0@ == self.%s@.subrange(a, b) } else { ret is None } }),""" % (off, ln, sect, sect))
+        else:
+            h.contract("    ensures true,")
+        u.emit(h)
+
+    # ---------------- find_range_by_binary_search ----------------
+    fr = cm.impl_fn(IMPL, "find_range_by_binary_search")
+    fr.ret("ret")
+    fr.props_safety = ["C12"]
+    fr.props_all = ["C01", "C02", "C03", "C04"] if fun else ["C12"]
+    # R2: iterator searches behind shims (generic in the method name so that position<->rposition swaps are *verified*, not lost)
+    fr.replace_all_re(r"(members\[[^\]]*\])\s*\.iter\(\)\s*\.(r?position)\(", r"shim_slice_\2(&\1, ", "R2",
+                      "slice.iter().(r)position(p) behind an external_body shim with the documented contract", min_count=2)
+    # R3: closure contracts
+    fr.closure("|m: &raw::Member|", ret="b: bool",
+               spec="ensures exists|o: Ordering| #[trigger] call_ensures(&f, (m,), o) && b == (o != Ordering::Equal)")
+    fr.closure("|idx|", occ=1, params="|idx: usize|", ret="r: usize", spec="requires 0 <= ({body}) <= usize::MAX ensures r == ({body})")
+    fr.closure("|idx|", occ=2, params="|idx: usize|", ret="r: usize", spec="requires 0 <= ({body}) <= usize::MAX ensures r == ({body})")
+    if fun:
+        fr.contract("""    requires forall|m: &raw::Member| f.requires((m,)),
+    ensures
+        /*@L:equal_block:C01,C02,C03,C04*/ cmp_mono(members@, &f) && cmp_deterministic(&f) ==> (match ret {
+            Some(r) => exists|p: int, q: int| 0 <= p < q <= members@.len() && #[trigger] members@.subrange(p, q) == r@
+                && (forall|i: int| p <= i < q ==> call_ensures(&f, (&#[trigger] members@[i],), Ordering::Equal))
+                && (forall|i: int| (0 <= i < p || q <= i < members@.len()) ==> cmp_ne(&f, &#[trigger] members@[i])),
+            None => forall|i: int| 0 <= i < members@.len() ==> cmp_ne(&f, &#[trigger] members@[i]),
+        }),""")
+        fr.insert_before("members.get(start..end)", """proof {
+            if cmp_mono(members@, &f) && cmp_deterministic(&f) {
+                let s = members@;
+                let m = mid as int;
+                let lo = s.subrange(0, m);
+                let hi = s.subrange(m, s.len() as int);
+                assert(call_ensures(&f, (&s[m],), Ordering::Equal));
+                assert(forall|i: int| 0 <= i < m ==> lo[i] == s[i]);
+                assert(forall|i: int| 0 <= i < s.len() - m ==> hi[i] == s[i + m]);
+                assert(start <= m < end);
+                assert forall|i: int| start <= i < end implies call_ensures(&f, (&#[trigger] s[i],), Ordering::Equal) by {
+                    if i < m { assert(call_ensures(matches_not, (&lo[i],), false)); }
+                    else { assert(call_ensures(matches_not, (&hi[i - m],), false)); }
+                }
+                assert forall|i: int| (0 <= i < start || end <= i < s.len()) implies cmp_ne(&f, &#[trigger] s[i]) by {
+                    axiom_call_total(&f, &s[i]);
+                    if i < start {
+                        assert(call_ensures(matches_not, (&lo[start - 1],), true));
+                        let o = choose|o: Ordering| #[trigger] call_ensures(&f, (&lo[start - 1],), o) && o != Ordering::Equal;
+                        assert(call_ensures(&f, (&s[start - 1],), o));
+                    } else {
+                        assert(call_ensures(matches_not, (&hi[end - m],), true));
+                        let o = choose|o: Ordering| #[trigger] call_ensures(&f, (&hi[end - m],), o) && o != Ordering::Equal;
+                        assert(call_ensures(&f, (&s[end as int],), o));
+                    }
+                }
+                assert(s.subrange(start as int, end as int) == s.subrange(start as int, end as int));
+            }
+        }
+        """)
+    else:
+        fr.contract("    requires forall|m: &raw::Member| f.requires((m,)),")
+    u.emit(fr)
+
+    # ---------------- get_class ----------------
+    gc = cm.impl_fn(IMPL, "get_class")
+    gc.ret("ret")
+    gc.props_safety = ["C12"]
+    gc.props_all = ["C04", "C01", "C02"] if fun else ["C12"]
+    gc.closure("|c|", params="|c: &raw::Class|", ret="o: Ordering",
+               spec="ensures o == class_cmp(self.string_bytes@, *c, name@)" if fun else "")
+    gc.body_start(STR_ORD)
+    if fun:
+        gc.contract("""    requires classes_sorted(self.string_bytes@, self.classes@),
+    ensures
+        /*@L:class_exact:C04,C01,C02*/ ({ let sb = self.string_bytes@; let cs = self.classes@;
+          match ret {
+            Some(c) => exists|i: int| 0 <= i < cs.len() && *c == #[trigger] cs[i] && tbl(sb, c.obfuscated_name_offset) == Some(name@),
+            None => forall|i: int| 0 <= i < cs.len() ==> tbl(sb, (#[trigger] cs[i]).obfuscated_name_offset) != Some(name@),
+          } }),""")
+        gc.body_start("""        proof {
+            let sb = self.string_bytes@; let cs = self.classes@;
+            assert forall|i: int, j: int| 0 <= i < j < cs.len() implies
+                ord_rank(#[trigger] class_cmp(sb, cs[i], name@)) <= ord_rank(#[trigger] class_cmp(sb, cs[j], name@)) by {
+                let ni = tbl(sb, cs[i].obfuscated_name_offset).unwrap();
+                let nj = tbl(sb, cs[j].obfuscated_name_offset).unwrap();
+                axiom_seq_cmp_total(nj, name@);
+                axiom_seq_cmp_total(ni, name@);
+                if seq_cmp(nj, name@) != Ordering::Greater { axiom_seq_cmp_trans(ni, nj, name@); }
+            }
+            assert forall|i: int| 0 <= i < cs.len() implies
+                ((#[trigger] class_cmp(sb, cs[i], name@) == Ordering::Equal) <==> tbl(sb, cs[i].obfuscated_name_offset) == Some(name@)) by {
+                axiom_seq_cmp_total(tbl(sb, cs[i].obfuscated_name_offset).unwrap(), name@);
+            }
+        }
+""")
+    else:
+        gc.contract("    ensures true,")
+    u.emit(gc)
+
+    u.raw("} // impl ProguardCache\n", "glue")
     u.raw(FOOTER, "footer")
     return u
